@@ -154,6 +154,7 @@ func thoroughExtras(id, repo, verif string, seed int, p *prog.Program, ctx *rule
 	wg.Wait()
 	sort.Slice(results, func(i, j int) bool { return results[i].Name < results[j].Name })
 	killed, survivedK, na, quiet, alarms := 0, 0, 0, 0, 0
+	var skipped []string
 	for _, r := range results {
 		switch {
 		case r.Expect == "Q" && r.Outcome == "killed":
@@ -167,6 +168,7 @@ func thoroughExtras(id, repo, verif string, seed int, p *prog.Program, ctx *rule
 			continue
 		case r.Expect == "Q":
 			na++
+			skipped = append(skipped, r.Name+" ("+r.Outcome+")")
 			continue
 		case r.Outcome == "killed":
 			killed++
@@ -176,10 +178,15 @@ func thoroughExtras(id, repo, verif string, seed int, p *prog.Program, ctx *rule
 				Why: "the checker's own self-test failed: a mutation that breaks the property (" + r.What + ") is not reported by the rules of " + id})
 		case r.Outcome == "not-applicable" || r.Outcome == "not-compiling":
 			na++
+			skipped = append(skipped, r.Name+" ("+r.Outcome+")")
 		}
 		if r.Outcome == "killed" || (r.Outcome == "survived" && r.Expect == "S") {
 			out = append(out, report.Obligation{Rule: "SELFTEST", Key: "mutant " + r.Name, Status: report.Discharged, Why: r.Outcome + " as expected: " + r.What})
 		}
+	}
+	if len(skipped) > 0 {
+		// a variant that no longer applies or compiles tests nothing: port it (scripts/check_corpus.py)
+		fmt.Fprintf(os.Stderr, "NOTE property=%s %d variants of the corpus were skipped: %s\n", id, len(skipped), strings.Join(skipped, ", "))
 	}
 	info["mutation_selftest"] = map[string]any{"mutants": len(results) - quiet - alarms, "killed": killed, "missed": survivedK, "skipped": na, "kill_matrix": results,
 		"refactorings_silent": quiet, "refactorings_alarmed": alarms,
